@@ -221,13 +221,13 @@ impl Prop for C03 {
 // =====================================================================================================================
 // C17
 #[derive(Serialize, Deserialize, Clone, Debug)]
-pub struct Req { pub entry: u8, pub text: String, pub valid_select: bool, pub update_shaped: bool }
+pub struct Req { pub entry: u8, pub text: String, pub valid_select: bool, pub update_shaped: bool, #[serde(default)] pub ext: bool }
 #[derive(Serialize, Deserialize, Clone, Debug)]
-pub struct HostileCase { pub hash_seed: u64, pub setup: Vec<UStep>, pub reqs: Vec<Req> }
+pub struct HostileCase { pub hash_seed: u64, pub setup: Vec<UStep>, pub reqs: Vec<Req>, #[serde(default)] pub prefixes: Vec<(String, String, bool)> }
 pub struct C17;
 pub const ENTRIES: [&str; 10] = ["execute_sparql_query", "execute_query_rayon_parallel2_volcano(SELECT)", "execute_sparql_update", "SparqlDatabase::execute_update", "SparqlDatabase::handle_update", "handle_http_request(GET query=)", "handle_http_request(POST application/sparql-query)", "handle_http_request(POST form query=)", "handle_http_request(POST form update=)", "handle_http_request(POST application/sparql-update)"];
 
-const SELECTS: [&str; 18] = [
+const SELECTS: [&str; 25] = [
     "PREFIX e: <http://e/> PREFIX xsd: <http://www.w3.org/2001/XMLSchema#> SELECT ?s WHERE { ?s e:p0 ?o ; e:p1 ?x , ?y . FILTER (?o != \"v1\"@en) }",
     "SELECT ?s WHERE { ?s <http://e/num> ?n FILTER ((?n + 1) >= (2 * 2)) } ORDER BY ?s",
     "SELECT ?s WHERE { ?s a <http://e/Type> . ?s <http://e/p0> \"12\"^^<http://www.w3.org/2001/XMLSchema#integer> } # trailing comment",
@@ -246,8 +246,15 @@ const SELECTS: [&str; 18] = [
     "SELECT ?s (COUNT(?o) AS ?c) WHERE { ?s ?p ?o } GROUP BY ?s",
     "SELECT ?s WHERE { ?s <http://e/p0> \"v1\" . VALUES ?s { <http://e/n0> <http://e/n1> } }",
     "SELECT ?x WHERE { ?s <http://e/p0> ?o BIND(CONCAT(\"a\", \"b\") AS ?x) }",
+    "SELECT (MIN(?n) AS ?lo) (MAX(?n) AS ?hi) WHERE { ?s <http://e/num> ?n }",
+    "SELECT ?s (MAX(?n) AS ?hi) (SUM(?n) AS ?t) (AVG(?n) AS ?a) WHERE { ?s <http://e/num> ?n } GROUP BY ?s",
+    "SELECT (MIN(?v) AS ?lo) WHERE { VALUES ?v { 1 \"NaN\" 2 } }",
+    "SELECT (MAX(?v) AS ?hi) WHERE { VALUES ?v { \"-inf\" \"NaN\" \"1e999\" \"-0\" } }",
+    "SELECT ?s ?n WHERE { ?s <http://e/num> ?n FILTER (?n > 1) } ORDER BY DESC(?n) LIMIT 4",
+    "SELECT ?s WHERE { ?s d:p0 ?o . ?o h:p1 ?x FILTER (?x != d:n1) }",
+    "SELECT ?s WHERE { GRAPH h:g0 { ?s ?p h:n0 } }",
 ];
-const UPDATES: [&str; 13] = [
+const UPDATES: [&str; 14] = [
     "PREFIX e: <http://e/> INSERT DATA { e:n9 e:p0 e:n8 ; e:p1 \"x\" , \"y\" . }",
     "PREFIX e: <http://e/> DELETE { ?s e:p0 ?o } INSERT { GRAPH e:g9 { ?s e:p0 ?o } } WHERE { ?s e:p0 ?o FILTER (?o != e:n1) }",
     "INSERT DATA { <http://e/n9> <http://e/num> 42 . <http://e/n9> <http://e/num> -7 . <http://e/n9> <http://e/num> 3.5 }",
@@ -261,6 +268,17 @@ const UPDATES: [&str; 13] = [
     "INSERT DATA { GRAPH <http://e/g7> { <http://e/n9> <http://e/p0> \"v9\" } }",
     "INSERT { <http://e/n9> <http://e/p0> <http://e/n8> }",      // legacy alias
     "DELETE { <http://e/n0> <http://e/p0> <http://e/n1> }",      // legacy alias
+    "INSERT DATA { <http://e/n9> <http://e/num> \"NaN\" . <http://e/n9> <http://e/num> \"inf\" . <http://e/n8> <http://e/num> \"NaN\"^^<http://www.w3.org/2001/XMLSchema#double> . <http://e/n8> <http://e/num> 1e400 }",
+];
+/// Namespace IRIs for the database's own prefix table (reachable through the Turtle loader's @prefix lines and set_prefixes).
+const PREFIX_IRIS: [&str; 12] = ["http://e/", "http://e/\\u000\u{e9}", "http://e/\\U0000000\u{e9}", "http://e/\\", "http://e/\\u12", "http://e/\\uD800", "http://e/\\u00e9x", "http://\u{6f22}/\u{1F600}", "", "http://e/\\u\u{1F600}\u{1F600}", "http://e/%zz\\U0010FFFFa", "http://e/a b"];
+/// Kolibrie's extension clauses, which the combined grammar accepts in front of a SELECT or an update.
+const EXTENSIONS: [&str; 5] = [
+    "PREFIX ex: <http://e/>\nRULE :Copy :- CONSTRUCT { ?s ex:q ?o . } WHERE { ?s ex:p0 ?o . }\n",
+    "RETRIEVE SOME ACTIVE STREAM ?st FROM <http://e/stream> WITH { ?st <http://e/p0> ?o }\n",
+    "REGISTER RSTREAM <http://out/stream> AS SELECT * FROM NAMED WINDOW :w ON :stream [RANGE 10 STEP 2] WHERE { WINDOW :w { ?s1 a <http://e/Type> . } }\n",
+    "ML.PREDICT(MODEL \"m\", INPUT { SELECT ?s ?o WHERE { ?s <http://e/p0> ?o . } }, OUTPUT ?label)\n",
+    "PREFIX ex: <http://e/>\nRETRIEVE EVERY LATENT STREAM ?st FROM <http://e/stream> WITH { ?st ex:p0 ?o }\nRULE :R2 :- CONSTRUCT { ?s ex:q ?o . } WHERE { ?s ex:p1 ?o . }\n",
 ];
 fn mutate(r: &mut Rng, base: &str) -> String {
     let mut chars: Vec<char> = base.chars().collect();
@@ -288,7 +306,7 @@ fn mutate(r: &mut Rng, base: &str) -> String {
 impl Prop for C17 {
     type Case = HostileCase;
     fn id(&self) -> &'static str { "C17" }
-    fn expected_counters(&self) -> Vec<&'static str> { vec!["fault.update_submitted_to_query_endpoint", "fault.malformed_or_refused_request", "fault.multibyte_request"] }
+    fn expected_counters(&self) -> Vec<&'static str> { vec!["fault.update_submitted_to_query_endpoint", "fault.update_behind_extension_clause_on_query_endpoint", "fault.malformed_or_refused_request", "fault.multibyte_request", "fault.hostile_namespace_in_database_prefix_table", "probe.prefix_registered_by_turtle_loader", "probe.extension_clause_then_select_accepted", "probe.ext_accepted.rule", "probe.ext_accepted.retrieve", "probe.ext_accepted.register", "probe.ext_accepted.ml_predict", "probe.ext_accepted.retrieve_and_rule", "probe.extension_clause_then_update_applied", "probe.min_max_over_stored_nan"] }
     fn budget(&self, tier: Tier) -> Budget { match tier { Tier::Quick => Budget { runs: 20_000, wall_s: 60, recheck: 30 }, Tier::Thorough => Budget { runs: 1_500_000, wall_s: 1000, recheck: 100 } } }
     fn hash_seed(&self, c: &HostileCase) -> u64 { c.hash_seed }
     fn gen(&self, seed: u64, _i: u64, _t: Tier) -> HostileCase {
@@ -296,20 +314,31 @@ impl Prop for C17 {
         let nsetup = r.usize(12);
         let setup = gen_steps(&mut r, &mut cfg, nsetup).into_iter().filter(|s| !matches!(s, UStep::Rejected(_))).collect();
         let w_mut = 1 + cfg.below(6) as u32;
+        let w_ext = cfg.below(4);
+        let w_pfx = cfg.below(3);
+        let mut prefixes = vec![];
+        if w_pfx > 0 { prefixes.push(("d".to_string(), "http://e/".to_string(), r.chance(1, 2))); prefixes.push(("h".to_string(), if w_pfx == 2 { r.pick(&PREFIX_IRIS).to_string() } else { "http://e/".to_string() }, r.chance(1, 2))); }
         let mut reqs = vec![];
         for _ in 0..(8 + r.usize(30)) {
             let is_sel = r.chance(1, 2);
-            let base = if is_sel { r.pick(&SELECTS).to_string() } else { r.pick(&UPDATES).to_string() };
+            let base = if is_sel { r.pick(&SELECTS).to_string() } else if w_pfx > 0 && r.chance(1, 10) { "INSERT DATA { h:n9 d:p0 h:n8 }".to_string() } else { r.pick(&UPDATES).to_string() };
             let mutated = r.weighted(&[3, w_mut]) == 1;
+            // an extension clause in front of the operation (the combined grammar allows no second prologue after it)
+            let ext = w_ext > 0 && !base.starts_with("PREFIX") && r.chance(w_ext, 12);
+            let base = if ext { format!("{}{}", r.pick(&EXTENSIONS), base) } else { base };
             let text = if mutated { mutate(&mut r, &base) } else { base };
-            let entry = if !mutated && is_sel && r.chance(1, 4) { 1 } else { *r.pick(&[0u8, 0, 0, 2, 3, 4, 5, 6, 7, 8, 9]) };
-            reqs.push(Req { entry, text, valid_select: !mutated && is_sel, update_shaped: !mutated && !is_sel });
+            let entry = if !mutated && is_sel && !ext && r.chance(1, 4) { 1 } else { *r.pick(&[0u8, 0, 0, 2, 3, 4, 5, 6, 7, 8, 9]) };
+            reqs.push(Req { entry, text, valid_select: !mutated && is_sel, update_shaped: !mutated && !is_sel, ext });
         }
-        HostileCase { hash_seed: Rng::sub(seed, "hash").next(), setup, reqs }
+        HostileCase { hash_seed: Rng::sub(seed, "hash").next(), setup, reqs, prefixes }
     }
     fn exec(&self, c: &HostileCase, ctx: &mut Ctx) -> Option<Violation> {
         let mut db = SparqlDatabase::new(); let mut other = SparqlDatabase::new(); let mut m = Store::default(); let mut bn = 0u64;
         for (i, st) in c.setup.iter().enumerate() { let mut scratch = Ctx::new(false); if step(&mut db, &mut other, &mut m, &mut bn, i, st, &mut scratch).is_err() { break; } }
+        for (k, iri, via_loader) in &c.prefixes {
+            if *via_loader && !iri.contains(char::is_whitespace) && !iri.is_empty() { db.parse_turtle(&format!("@prefix {}: <{}> .\n", k, iri)); ctx.hit("probe.prefix_registered_by_turtle_loader"); } else { db.prefixes.insert(k.clone(), iri.clone()); }
+            if iri.contains('\\') || !iri.is_ascii() { ctx.hit("fault.hostile_namespace_in_database_prefix_table"); }
+        }
         for (i, rq) in c.reqs.iter().enumerate() {
             let before = raw_state(&db);
             let name = ENTRIES[rq.entry as usize % ENTRIES.len()];
@@ -335,7 +364,10 @@ impl Prop for C17 {
                     let query_path = matches!(rq.entry % 10, 0 | 1 | 5 | 6 | 7);
                     if query_path && after != before { return Some(Violation::new("query-path-modified-data", format!("request {} through {} changed the stored quads or graph catalog; text = {:?}", i, name, short))); }
                     if matches!(rq.entry % 10, 0 | 5 | 6 | 7) && rq.update_shaped && ok == Some(true) { return Some(Violation::new("update-accepted-on-query-path", format!("request {} through {}: update syntax was not refused; text = {:?}", i, name, short))); }
-                    if matches!(rq.entry % 10, 0 | 5 | 6 | 7) && rq.update_shaped { ctx.hit("fault.update_submitted_to_query_endpoint"); }
+                    if matches!(rq.entry % 10, 0 | 5 | 6 | 7) && rq.update_shaped { ctx.hit("fault.update_submitted_to_query_endpoint"); if rq.ext { ctx.hit("fault.update_behind_extension_clause_on_query_endpoint"); } }
+                    if rq.ext && rq.valid_select && ok == Some(true) { ctx.hit("probe.extension_clause_then_select_accepted"); const N: [&str; 5] = ["probe.ext_accepted.rule", "probe.ext_accepted.retrieve", "probe.ext_accepted.register", "probe.ext_accepted.ml_predict", "probe.ext_accepted.retrieve_and_rule"]; if let Some(k) = EXTENSIONS.iter().position(|e| rq.text.starts_with(e)) { ctx.hit(N[k]); } }
+                    if rq.ext && rq.update_shaped && !query_path && ok == Some(true) { ctx.hit("probe.extension_clause_then_update_applied"); }
+                    if rq.valid_select && ok == Some(true) && (rq.text.contains("MIN(") || rq.text.contains("MAX(")) && before.0.iter().any(|q| db.dictionary.read().unwrap().decode(q.object).map(|o| o.contains("NaN")).unwrap_or(false)) { ctx.hit("probe.min_max_over_stored_nan"); }
                     if !query_path && ok == Some(false) && after != before { return Some(Violation::new("failed-update-changed-dataset", format!("request {} through {} reported failure but the dataset changed; text = {:?}", i, name, short))); }
                     if ok == Some(false) { ctx.hit("fault.malformed_or_refused_request"); }
                     if !rq.text.is_ascii() { ctx.hit("fault.multibyte_request"); }
@@ -350,6 +382,7 @@ impl Prop for C17 {
     fn shrink(&self, c: &HostileCase) -> Vec<HostileCase> {
         let mut out: Vec<HostileCase> = shrink_vec(&c.reqs).into_iter().filter(|r| !r.is_empty()).map(|r| HostileCase { reqs: r, ..c.clone() }).collect();
         for s in shrink_vec(&c.setup) { out.push(HostileCase { setup: s, ..c.clone() }); }
+        for s in shrink_vec(&c.prefixes) { out.push(HostileCase { prefixes: s, ..c.clone() }); }
         // shorten the text of the last request (char-wise halves, then single characters)
         if let Some(last) = c.reqs.last() {
             let chars: Vec<char> = last.text.chars().collect();
@@ -358,7 +391,7 @@ impl Prop for C17 {
         if c.hash_seed != 0 { out.push(HostileCase { hash_seed: 0, ..c.clone() }); }
         out
     }
-    fn rule(&self) -> String { "A case is one session: a generated update history builds a database state, then a hostile client sends 8-38 requests (valid SELECTs, every update form and the legacy aliases, and mutations of those: deletion/duplication/truncation, 2-4-byte characters before/inside/after tokens, unbalanced braces and quotes, NULs, very long tokens) through execute_sparql_query, execute_query_rayon_parallel2_volcano (SELECT only), execute_sparql_update, SparqlDatabase::execute_update, handle_update and the HTTP GET query adapter. After every request: query paths leave quad ids and catalog unchanged, update syntax is refused there, a failed update leaves the dataset unchanged, no entry point unwinds. Distinct = hash of the request list (every case is counted non-trivial when it has >= 8 requests).".into() }
-    fn assumptions(&self) -> Vec<String> { vec!["ML / RULE / REGISTER extension statements are not in the corpus (they touch the filesystem and Python)".into(), "this is seeded mutation of requests inside a stateful session; the simulator's contribution is the state dimension and the per-request whole-state invariant".into()] }
+    fn rule(&self) -> String { "A case is one session: a generated update history builds a database state (in a third of the cases its prefix table holds namespaces registered through the Turtle loader or the prefix API, half of those hostile: escape-like sequences next to multi-byte characters, surrogates, empty), then a hostile client sends 8-38 requests (valid SELECTs incl. MIN/MAX/SUM/AVG over NaN/inf lexical forms, every update form and the legacy aliases, any of them optionally behind a RULE / RETRIEVE / REGISTER / ML.PREDICT extension clause, and mutations of those: deletion/duplication/truncation, 2-4-byte characters before/inside/after tokens, unbalanced braces and quotes, NULs, very long tokens) through execute_sparql_query, execute_query_rayon_parallel2_volcano (SELECT only), execute_sparql_update, SparqlDatabase::execute_update, handle_update and the HTTP GET query adapter. After every request: query paths leave quad ids and catalog unchanged, update syntax is refused there, a failed update leaves the dataset unchanged, no entry point unwinds. Distinct = hash of the request list (every case is counted non-trivial when it has >= 8 requests).".into() }
+    fn assumptions(&self) -> Vec<String> { vec!["RULE / RETRIEVE / REGISTER / ML.PREDICT clauses are in the corpus in front of SELECTs and updates (none of the ten entry points executes them); MODEL / TRAIN declarations are not (they run training code)".into(), "this is seeded mutation of requests inside a stateful session; the simulator's contribution is the state dimension and the per-request whole-state invariant".into()] }
     fn real_vs_stub(&self) -> serde_json::Value { serde_json::json!({"real": ["execute_sparql_query", "execute_query_rayon_parallel2_volcano", "execute_sparql_update", "SparqlDatabase::{execute_update, handle_update, handle_http_request}", "parser", "error_handler"], "simulated": ["the client", "hash keys"], "not_run": ["TCP sockets (run_server)"]}) }
 }
